@@ -4,6 +4,7 @@
    keyword.  The keyword tables are those of Gen/Keywords.v (regenerated from the generated Go lexer on every run):
    the facts about them are proved by computation on the tables as they are now. *)
 From Coq Require Import Lia.
+From Verif Require Export Spec.DocDomain.
 From Verif Require Import Base.Str Model.Token Gen.Keywords Model.Lexer.
 
 (* ---------------------------------------------------------------------------------------- *)
@@ -158,7 +159,6 @@ Definition literals : list rule :=
 Lemma default_rules_parts : default_rules = literals ++ recognisers.
 Proof. unfold default_rules, literals, recognisers. rewrite <- !app_assoc. reflexivity. Qed.
 
-Definition all_literal_spellings : list str := map snd (kw_default_before_schema_version ++ kw_default_after_schema_version).
 
 Lemma literal_rules_in tbl k f : In (k, f) (literal_rules tbl) -> exists l, In l (map snd tbl) /\ f = rec_literal l.
 Proof.
@@ -208,10 +208,6 @@ Qed.
 Definition is_delim (c : N) : bool :=
   (c =? 32) || (c =? 44) || (c =? 93) || (c =? 41) || (c =? 58) || (c =? 35) || (c =? 10).
 
-(* a plain identifier that no literal rule claims *)
-Definition plain_name (s : str) : bool :=
-  match s with c :: r => is_id_start c && forallb is_id_char r | [] => false end &&
-  negb (existsb (str_eqb s) all_literal_spellings) && negb (str_eqb s (lit "but")).
 
 Lemma delim_cases d : is_delim d = true -> d = 32 \/ d = 44 \/ d = 93 \/ d = 41 \/ d = 58 \/ d = 35 \/ d = 10.
 Proof.
